@@ -269,9 +269,240 @@ def gen_consts(repo, ns):
     return {"Consts.lean": "\n".join(text)}
 
 
+
+# ----------------------------------------------------------------------------------------------
+# generic twin (one definition over core classes, executed at Float, reasoned about at R/Q): used for tables
+# ----------------------------------------------------------------------------------------------
+
+class GExpr:
+    """expression printer for the generic twin: literals keep their source text, `x ** 0.75` -> `pow34 x`,
+    `x ** n` (n small int) -> repeated product, names through a renaming map, a few calls through a map"""
+
+    def __init__(self, fname, src, names=None, calls=None, subst=None):
+        self.fname, self.src = fname, src
+        self.names = names or {}
+        self.calls = calls or {}
+        self.subst = subst or (lambda e: None)
+
+    def ex(self, e):
+        r = self.subst(e)
+        if r is not None:
+            return r
+        if isinstance(e, ast.BinOp):
+            if isinstance(e.op, ast.Pow):
+                base = self.ex(e.left)
+                r = e.right
+                if isinstance(r, ast.Constant) and isinstance(r.value, float) and r.value == 0.75:
+                    return f"pow34 {base}" if base.startswith('(') or base.isidentifier() else f"pow34 ({base})"
+                if isinstance(r, ast.Constant) and isinstance(r.value, int) and not isinstance(r.value, bool) and 2 <= r.value <= 4:
+                    if base.isidentifier():
+                        return "(" + " * ".join([base] * r.value) + ")"
+                    return "(let q := " + base + "; " + " * ".join(["q"] * r.value) + ")"
+                raise Untranslatable(self.fname, e.lineno, "power " + ast.get_source_segment(self.src, e))
+            op = {ast.Add: '+', ast.Sub: '-', ast.Mult: '*', ast.Div: '/'}.get(type(e.op))
+            if op is None:
+                raise Untranslatable(self.fname, e.lineno, f"operator {type(e.op).__name__}")
+            return f"({self.ex(e.left)} {op} {self.ex(e.right)})"
+        if isinstance(e, ast.UnaryOp) and isinstance(e.op, ast.USub):
+            return f"(-{self.ex(e.operand)})"
+        if isinstance(e, ast.Name):
+            return self.names.get(e.id, e.id)
+        if isinstance(e, ast.Constant) and isinstance(e.value, (int, float)) and not isinstance(e.value, bool):
+            return lit_text(ast.get_source_segment(self.src, e))
+        if isinstance(e, ast.Call):
+            f = e.func
+            key = None
+            if isinstance(f, ast.Attribute) and isinstance(f.value, ast.Name) and f.value.id == 'np':
+                key = 'np.' + f.attr
+            elif isinstance(f, ast.Name):
+                key = f.id
+            if key in self.calls and len(e.args) == 1 and not e.keywords:
+                return self.calls[key](self.ex(e.args[0]), e.args[0], self)
+            raise Untranslatable(self.fname, e.lineno, "call " + ast.get_source_segment(self.src, f))
+        raise Untranslatable(self.fname, e.lineno, f"expression {type(e).__name__}")
+
+    def cond(self, e):
+        if isinstance(e, ast.Compare) and len(e.ops) == 1:
+            op = {ast.Lt: '<', ast.Gt: '>', ast.Eq: '=='}.get(type(e.ops[0]))
+            if op is None:
+                raise Untranslatable(self.fname, e.lineno, "comparison " + ast.get_source_segment(self.src, e))
+            return f"{self.ex(e.left)} {op} {self.ex(e.comparators[0])}"
+        raise Untranslatable(self.fname, e.lineno, f"condition {type(e).__name__}")
+
+
+def if_chain(fname, src, node, target, gx):
+    """`if c1: target = e1 elif c2: target = e2 … else: target = en`  ->  [(cond, expr)…], else_expr"""
+    branches = []
+    cur = node
+    while True:
+        if not isinstance(cur, ast.If):
+            raise Untranslatable(fname, getattr(cur, 'lineno', 0), "expected if/elif chain")
+        if len(cur.body) != 1 or not isinstance(cur.body[0], ast.Assign) or not isinstance(cur.body[0].targets[0], ast.Name) \
+                or cur.body[0].targets[0].id != target:
+            raise Untranslatable(fname, cur.lineno, f"branch is not a single assignment to {target}")
+        branches.append((gx.cond(cur.test), gx.ex(cur.body[0].value)))
+        if len(cur.orelse) == 1 and isinstance(cur.orelse[0], ast.If):
+            cur = cur.orelse[0]
+            continue
+        if len(cur.orelse) != 1 or not isinstance(cur.orelse[0], ast.Assign) or cur.orelse[0].targets[0].id != target:
+            raise Untranslatable(fname, cur.lineno, "else branch is not a single assignment")
+        return branches, gx.ex(cur.orelse[0].value)
+
+
+def strip_outer(t):
+    # remove one pair of redundant outer parentheses (never a type ascription)
+    if t.endswith(': Rat)') or t.endswith(': Int)'):
+        return t
+    if t.startswith('(') and t.endswith(')'):
+        depth = 0
+        for i, ch in enumerate(t):
+            depth += ch == '('
+            depth -= ch == ')'
+            if depth == 0 and i < len(t) - 1:
+                return t
+        return t[1:-1]
+    return t
+
+
+def class_chains(fname, src, body, var, target):
+    """find `if site_class == 'C': <chain> elif … 'D' … elif … 'E' … else: raise` inside body"""
+    out = {}
+    for n in ast.walk(ast.Module(body=body, type_ignores=[])):
+        if isinstance(n, ast.If) and isinstance(n.test, ast.Compare) and isinstance(n.test.left, ast.Name) and n.test.left.id == 'site_class' \
+                and isinstance(n.test.comparators[0], ast.Constant) and isinstance(n.test.comparators[0].value, str):
+            cls = n.test.comparators[0].value
+            if cls in out:
+                continue
+            if len(n.body) != 1:
+                raise Untranslatable(fname, n.lineno, f"class {cls} body is not a single if-chain")
+            gx = GExpr(fname, src)
+            out[cls] = if_chain(fname, src, n.body[0], target, gx)
+    return out
+
+
+def gen_design_spectra(repo, ns):
+    src = open(os.path.join(repo, 'eqsig', 'design_spectra.py')).read()
+    mod = ast.parse(src)
+    ch = class_chains('c_h_factor', src, find_function(mod, 'c_h_factor').body, 'tt', 'ch_factor')
+    sd = class_chains('sd_nzs', src, find_function(mod, 'sd_nzs').body, 'period', 'c_h')
+    for nm, d in (('c_h_factor', ch), ('sd_nzs', sd)):
+        if sorted(d) != ['C', 'D', 'E']:
+            raise Untranslatable(nm, 0, f"site classes found: {sorted(d)}")
+    text = ["-- GENERATED by tools/py2lean.py from eqsig/design_spectra.py (the if/elif tables of c_h_factor and sd_nzs). Do not edit.",
+            "", f"namespace EqsigVerif.{ns}.DesignSpectra", "",
+            "variable {α : Type} [Add α] [Sub α] [Mul α] [Div α] [LT α] [DecidableLT α] [BEq α]",
+            "  [OfNat α 0] [OfNat α 2] [OfScientific α]", ""]
+    for prefix, d, var in (('ch', ch, 'tt'), ('sd', sd, 'period')):
+        for cls in ('C', 'D', 'E'):
+            branches, els = d[cls]
+            text.append(f"def {prefix}{cls} (pow34 : α → α) ({var} : α) : α :=")
+            for i, (c, e) in enumerate(branches):
+                text.append(f"  {'if' if i == 0 else 'else if'} {c} then {strip_outer(e)}")
+            text.append(f"  else {strip_outer(els)}")
+            text.append("")
+    text += [f"end EqsigVerif.{ns}.DesignSpectra", ""]
+    return {"DesignSpectra.lean": "\n".join(text)}
+
+
+def gen_factor_rule(repo, ns):
+    src = open(os.path.join(repo, 'eqsig', 'fns', 'time_step.py')).read()
+    mod = ast.parse(src)
+    defs = []
+    for fname, lname in (('interp_array_to_approx_dt', 'factorRuleInterp'), ('resample_to_approx_dt', 'factorRuleResample')):
+        fn = find_function(mod, fname)
+        chain = None
+        for i, st in enumerate(fn.body):
+            if isinstance(st, ast.Assign) and isinstance(st.targets[0], ast.Name) and st.targets[0].id == 'factor' and \
+                    isinstance(st.value, ast.BinOp) and isinstance(st.value.op, ast.Div):
+                if i + 1 < len(fn.body) and isinstance(fn.body[i + 1], ast.If):
+                    chain = fn.body[i + 1]
+        if chain is None:
+            raise Untranslatable(fname, fn.lineno, "factor = a / b followed by an if-chain not found")
+
+        def intcast(arg_text, arg_node, gx, kind):
+            return f"((Rat.{kind} {arg_text} : Int) : Rat)"
+        calls = {'np.ceil': lambda t, n, g: intcast(t, n, g, 'ceil'), 'np.floor': lambda t, n, g: intcast(t, n, g, 'floor'),
+                 'int': lambda t, n, g: t}
+        gx = GExpr(fname, src, names={'factor': 'q'}, calls=calls)
+        parts = []
+        cur = chain
+        while True:
+            cond = gx.cond(cur.test).replace('==', '=')
+            if len(cur.body) == 1 and isinstance(cur.body[0], ast.Pass):
+                val = 'q'
+            elif len(cur.body) == 1 and isinstance(cur.body[0], ast.Assign) and cur.body[0].targets[0].id == 'factor':
+                val = strip_outer(gx.ex(cur.body[0].value))
+            else:
+                raise Untranslatable(fname, cur.lineno, "branch of the factor rule")
+            parts.append((cond, val))
+            if len(cur.orelse) == 1 and isinstance(cur.orelse[0], ast.If):
+                cur = cur.orelse[0]
+                continue
+            if len(cur.orelse) == 1 and isinstance(cur.orelse[0], ast.Assign) and cur.orelse[0].targets[0].id == 'factor':
+                els = strip_outer(gx.ex(cur.orelse[0].value))
+            elif not cur.orelse:
+                els = 'q'
+            else:
+                raise Untranslatable(fname, cur.lineno, "else branch of the factor rule")
+            break
+        lines = [f"/-- the factor rule of `{fname}` on the exact quotient `q = dt / target_dt` -/", f"def {lname} (q : Rat) : Rat :="]
+        for i, (c, v) in enumerate(parts):
+            lines.append(f"  {'if' if i == 0 else 'else if'} {c} then {v}")
+        lines.append(f"  else {els}")
+        defs.append("\n".join(lines))
+    text = ["-- GENERATED by tools/py2lean.py from eqsig/fns/time_step.py (factor rule). Do not edit.", "",
+            f"namespace EqsigVerif.{ns}.TimeStepFactor", ""] + ["\n\n".join(defs)] + ["", f"end EqsigVerif.{ns}.TimeStepFactor", ""]
+    return {"TimeStepFactor.lean": "\n".join(text)}
+
+
+def gen_ko_window(repo, ns):
+    src = open(os.path.join(repo, 'eqsig', 'fns', 'frequency.py')).read()
+    mod = ast.parse(src)
+    defs = []
+    for fname, suf in (('calc_smooth_fa_spectrum', 'Direct'), ('calc_smoothing_matrix_konno_1998', 'Matrix')):
+        fn = find_function(mod, fname)
+        amp = raw = whr = None
+        for st in fn.body:
+            if isinstance(st, ast.Assign) and isinstance(st.targets[0], ast.Name):
+                if st.targets[0].id == 'amp_array':
+                    amp = st.value
+                if st.targets[0].id == 'wb_vals' and raw is None:
+                    raw = st.value
+                elif st.targets[0].id == 'wb_vals' and isinstance(st.value, ast.Call) and np_attr(st.value) == 'where':
+                    whr = st.value
+        if amp is None or raw is None or whr is None:
+            raise Untranslatable(fname, fn.lineno, "amp_array / wb_vals / np.where statements not found")
+
+        def subst(e):
+            if isinstance(e, ast.Subscript) and isinstance(e.value, ast.Name):
+                return {'fa_frequencies': 'f', 'smooth_fa_frequencies': 'fc'}.get(e.value.id)
+            return None
+        gx = GExpr(fname, src, calls={'np.log10': lambda t, n, g: f"log10 {t}", 'np.sin': lambda t, n, g: f"sin {t}"},
+                   names={'amp_array': 'x'}, subst=subst)
+        # np.where(amp_array == 0, 1, wb_vals)
+        if len(whr.args) != 3 or not (isinstance(whr.args[2], ast.Name) and whr.args[2].id == 'wb_vals'):
+            raise Untranslatable(fname, whr.lineno, "np.where(cond, c, wb_vals)")
+        defs.append(f"def koArg{suf} (log10 : α → α) (band f fc : α) : α := {strip_outer(gx.ex(amp))}\n\n"
+                    f"def koRaw{suf} (sin : α → α) (x : α) : α := {strip_outer(gx.ex(raw))}\n\n"
+                    f"def koWindow{suf} (sin log10 : α → α) (band f fc : α) : α :=\n"
+                    f"  let x := koArg{suf} log10 band f fc\n"
+                    f"  if {gx.cond(whr.args[0])} then {gx.ex(whr.args[1])} else koRaw{suf} sin x")
+    text = ["-- GENERATED by tools/py2lean.py from eqsig/fns/frequency.py (Konno-Ohmachi window expression). Do not edit.", "",
+            f"namespace EqsigVerif.{ns}.KoWindow", "",
+            "variable {α : Type} [Mul α] [Div α] [BEq α] [OfNat α 0] [OfNat α 1]", ""] + ["\n\n".join(defs)] + \
+           ["", f"end EqsigVerif.{ns}.KoWindow", ""]
+    return {"KoWindow.lean": "\n".join(text)}
+
+
+def np_attr(c):
+    if isinstance(c, ast.Call) and isinstance(c.func, ast.Attribute) and isinstance(c.func.value, ast.Name) and c.func.value.id == 'np':
+        return c.func.attr
+    return None
+
+
 from py2lean_struct import gen_cache_table, gen_effects, Untranslatable as UntranslatableS  # noqa: E402
 
-TARGETS = [gen_sdof_ab, gen_consts, gen_cache_table, gen_effects]
+TARGETS = [gen_sdof_ab, gen_consts, gen_cache_table, gen_effects, gen_design_spectra, gen_factor_rule, gen_ko_window]
 
 
 def main():
